@@ -47,6 +47,11 @@ CHECKS = {
   text="Proof (partial): the main loop of radicale.server.serve is a transition system over (slots in use, running workers, backlog, shutdown, phase); by induction over any event sequence the slots in use never exceed max_connections, a finished worker frees its slot at the next iteration, a waiting client is accepted whenever a slot is free, nothing is accepted once shutdown was seen and the function returns only with no request in flight; the Content-Length gate is a closed formula. Tie: generated environment schedules drive the real serve() with select.select, the server class and sockets replaced by scripted stand-ins; poll sets, slot counts and the return point are compared with the model at every iteration; real-socket runs check the concurrent-entry bound, 413 and shutdown with requests in flight.",
   note="Partial: the idle-client time-out and complete responses on the wire are socket/OS behaviour, observed in the real-socket runs, not modelled. Trusted: Lean kernel, standard axioms; the scripted stand-ins; socketserver/wsgiref threading.",
   ref="5/C20"),
+ "C16": dict(
+  technique="Lean 4 theorems: every line of the RFC 4791 9.9 tables (VEVENT, VTODO, VJOURNAL) is equivalent to the overlap test on the ranges the visitor emits; the early exit is sound for ordered occurrences; the cached hull encloses all ranges and the storage shortcut agrees with full evaluation + differential correspondence of comp_match / find_time_range / calendar-query with the model and an independent RFC oracle",
+  text="Proof: visit_time_ranges is modelled per component type over integer seconds; for all values each table line's emitted ranges overlap a filter range iff the RFC condition (written independently) holds; the visitor's early exit equals 'some occurrence overlaps' for occurrences in non-decreasing order (proved for DAILY/WEEKLY progressions); the hull encloses every range, so skipping by hull and claiming a match by hull are both sound when ranges are well formed - hence an always-true extra condition cannot change a result. Tie: objects and boundary-placed ranges from the property's grammar through comp_match, find_time_range and real calendar-query REPORTs (with the extra condition before/after) vs the model driver and an RFC oracle over independently computed occurrences.",
+  note="Trusted: Lean kernel, standard axioms; vobject/dateutil produce the arithmetic progression for DAILY/WEEKLY rules (validated by the oracle); integer seconds. Free-busy periods are not modelled yet. Known finding F9 (ill-formed override) is outside the grammar and reported as KNOWN-FINDING.",
+  ref="5/C16"),
 }
 
 NA_REASON = "check not built yet (work in progress; see DESIGN.md section 5 for the plan)"
